@@ -349,6 +349,17 @@ def gen_C05(rng, tier, changed):
                         op('set_order_wr', 0, order ^ 1), op('set_order_wr', 0, order)]
                 elem = 'tr' if (r + c) % 3 else rng.choice(['tr', 'w24', 'unit', 'zd', 'b1'])
                 cases.append(Case(f'C05-{r}x{c}o{order}', ops, elem))
+                # the same on a vector with spare capacity (at least three times the size, after growing and shrinking back;
+                # the memory-order prefix survives both resizes): gap found with seeded change C05e
+                if r * c > 0 and r <= 6 and c <= 6:
+                    sh2 = Shadow()
+                    ops2 = build(sh2, 0, r, c, order, how='rowreshape')
+                    ops2 += [op('resize', 0, 4 * r, c) if order == 0 else op('resize', 0, r, 4 * c), op('resize', 0, r, c), op('capacity_ge', 0)]
+                    ops2 += [op('transpose', 0), op('shape', 0)]
+                    if r * c <= 12:
+                        ops2 += [op('get', 0, 0, i, j) for i in range(c) for j in range(r)]
+                    ops2 += [op('switch_order', 0), op('transpose', 0), op('set_order', 0, order)]
+                    cases.append(Case(f'C05-{r}x{c}o{order}cap', ops2, 'tr' if (r + c) % 2 else rng.choice(['w24', 'b1', 'pn'])))
     nrand = 150 if tier == 'quick' else 1500
     for i in range(nrand):
         sh = Shadow()
@@ -1286,6 +1297,19 @@ def gen_C12(rng, tier, changed):
                     ops += [op('clone', 2, 0), op('clone', 3, 1), op('op_ew', opk, 0, 2, 2, 3)]
                     ops += [op('clone', 2, 0), op('op_ew_assign', opk, 1, 2, 1), op('clone', 3, 1), op('clone', 2, 0), op('op_ew_assign', opk, 0, 2, 3)]
                 cases.append(Case(f'C12-{r}x{c}o{o1}-{r2}x{c2}o{o2}', ops, 'tr'))
+    # larger operands (blocked / tiled rewrites of the loops only differ there): extents around 16 and 32, unequal on the
+    # two axes, every order combination; the three drivers and the assigning operators (gap found with seeded change C12e)
+    big = [(16, 32), (32, 16), (20, 2), (2, 20), (17, 33), (40, 20), (16, 16), (1, 48)]
+    if tier == 'quick':
+        big = rng.sample(big[:6], 3) + [big[6]]
+    for (r, c) in big:
+        for o1 in (0, 1):
+            for o2 in (0, 1):
+                sh = Shadow()
+                ops = build(sh, 0, r, c, o1, how='rowreshape') + build(sh, 1, r, c, o2, how='rowreshape')
+                ops += [op('ew', 2, 0, 1, 1), op('clone', 2, 0), op('ew_consume', 3, 2, 1, 2), op('clone', 2, 0), op('ew_assign', 2, 1, 0)]
+                ops += [op('clone', 2, 0), op('op_ew_assign', 0, 1, 2, 1), op('clone', 2, 0), op('ew_named', 1, 2, 0, 2, 1)]
+                cases.append(Case(f'C12-big{r}x{c}o{o1}o{o2}', ops, 'tr'))
     return cases
 
 
@@ -2320,6 +2344,17 @@ def gen_C17(rng, tier, changed):
                             op('threaded_vectors_mut', 0, nthreads, 2, 1 - axis)]
                     cases.append(Case(f'C17-{k}', ops, rng.choice(['tr', 'tr', 'w24', 'zd'])))
                     k += 1
+    # the outer iterator split between the main thread (which keeps `front` vectors) and a worker that consumes the rest
+    # through rev / step_by / skip / nth / nth_back: no element may be reachable from both (gap found with seeded change C17d)
+    for (r, c) in [(1, 1), (2, 3), (3, 2), (5, 4), (4, 5), (6, 2), (2, 6), (7, 3)]:
+        for order in (0, 1):
+            sh = Shadow()
+            ops = build(sh, 0, r, c, order, how='rowreshape')
+            for axis in (0, 1):
+                for front in (0, 1, 2, 3):
+                    for adaptor in range(7):
+                        ops.append(op('threaded_scan', 0, front, adaptor, axis))
+            cases.append(Case(f'C17-s{r}x{c}o{order}', ops, rng.choice(['tr', 'w24', 'b1'])))
     return cases
 
 
@@ -2327,6 +2362,9 @@ def oracle_C17(case, hlines):
     out = []
     ops = [o for o in case.ops if o[1] != 'fault']
     for i, (o, line) in enumerate(zip(ops, hlines)):
+        if o[1] == 'threaded_scan' and obs_of(line) != '()':
+            out.append(dict(kind='oracle', op_index=i, op='threaded_scan', observed=obs_of(line), expected='()',
+                            detail='rows/columns split between two threads through iterator adaptors: an element was reachable twice or outside the buffer'))
         if o[1] == 'eq' and obs_of(line) != 'true' and case.elem in ('tr', 'w24', 'pn'):
             out.append(dict(kind='oracle', op_index=i, op='threaded_vectors_mut', observed=obs_of(line), expected='true',
                             detail='mutating distinct rows/columns on several threads differs from doing the same sequentially'))
@@ -2352,6 +2390,9 @@ def gen_C18(rng, tier, changed):
             cases.append(KCase(f'C18-{PRIMS[t]}-{o}', 'scalar_forms', [t, o], meta=dict(want=want)))
             if t >= 6:
                 cases.append(KCase(f'C18-{PRIMS[t]}-{o}-signed', 'scalar_forms', [t, o, 1], meta=dict(want=want)))
+            if t >= 12:
+                # signed zeros and infinities (gap found with seeded change C18d)
+                cases.append(KCase(f'C18-{PRIMS[t]}-{o}-special', 'scalar_forms', [t, o, 2], meta=dict(want=want)))
         if t >= 6:
             cases.append(KCase(f'C18-{PRIMS[t]}-neg', 'scalar_neg', [t], meta=dict(want='S:76.76')))
     k = 0
